@@ -259,8 +259,12 @@ def gen_c10(rng: random.Random, tier: str) -> Plan:
             ops.append({"op": "load", "target": rng.choice(m.names), "slot": f"s{rng.randrange(3)}",
                         "assign": rng.random() < 0.2})
         elif r < 0.79:
-            ops.append({"op": "foreign_compile", "target": rng.choice(m.names), "seed": _seed(rng),
-                        "flags": {"fold": rng.random() < 0.5, "optimize": rng.random() < 0.5}})
+            if rng.random() < 0.5:
+                ops.append({"op": "foreign_compile", "target": rng.choice(m.names), "seed": _seed(rng),
+                            "flags": {"fold": rng.random() < 0.5, "optimize": rng.random() < 0.5}})
+            else:
+                ops.append({"op": "load_edited", "target": rng.choice(m.names), "seed": _seed(rng),
+                            "mode": rng.choice(["mul", "add"]), "scale": rng.choice([0.3, 1.0])})
         elif r < 0.88 and m.nd < 6:
             d = _gen_derive(rng, m, domain=domain, poly=poly, allow_fault=faults)
             if d is not None:
